@@ -1,11 +1,14 @@
 //! One module per property.
 use crate::util::Opts;
 
+pub mod c01;
+pub mod c02;
+
 pub fn run(prop: &str, opts: &Opts) -> bool {
-    let _ = opts;
     match prop {
+        "c01" => c01::run(opts),
+        "c02" => c02::run(opts),
         _ => return false,
     }
-    #[allow(unreachable_code)]
     true
 }
